@@ -209,7 +209,8 @@ impl St {
 
 /// Search an interleaving of the threads' operation sequences (program order kept) whose
 /// sequential execution from `init` reproduces every observed result and the final contents.
-fn find_linearization(init: &St, progs: &[Vec<Op>], observed: &[Vec<String>], fin: &str) -> Option<Vec<usize>> {
+/// `Err(())`: search budget exhausted (undecided).
+fn find_linearization(init: &St, progs: &[Vec<Op>], observed: &[Vec<String>], fin: &str) -> Result<Option<Vec<usize>>, ()> {
     fn go(
         st: &St,
         pos: &mut Vec<usize>,
@@ -253,8 +254,10 @@ fn find_linearization(init: &St, progs: &[Vec<Op>], observed: &[Vec<String>], fi
     let mut dead = HashSet::new();
     let mut budget = 2_000_000u64;
     if go(init, &mut pos, progs, observed, fin, &mut order, &mut dead, &mut budget) {
-        Some(order)
+        Ok(Some(order))
+    } else if budget == 0 {
+        Err(())
     } else {
-        None
+        Ok(None)
     }
 }
